@@ -310,6 +310,41 @@ def fam_pairs(shape: tuple[int, ...] = (2, 3, 4)) -> Iterator[dict]:
                    "calls": [apply(c1, 1), apply(c2, 2)], "outs": {"out": 3}}
 
 
+def fam_nan() -> Iterator[dict]:
+    """NaN / inf / signed zeros at DIFFERENT positions of the two operands (in
+    the first only, in the second only, in both) for the operations of the
+    NaN-aware fragment, both operand orders and scalar operands."""
+    nan, inf = float("nan"), float("inf")
+    xd = [nan, 1.0, nan, 2.0, inf, -inf, -0.0, 0.0, 3.0]
+    yd = [1.0, nan, nan, 3.0, 1.0, -inf, 0.0, -0.0, inf]
+    x = {"name": "x", "shape": [9], "dtype": "f8", "kind": "ph", "data": xd}
+    y = {"name": "y", "shape": [9], "dtype": "f8", "kind": "ph", "data": yd}
+    x2 = {"name": "x", "shape": [3, 3], "dtype": "f8", "kind": "ph", "data": xd}
+    y1 = {"name": "y", "shape": [3], "dtype": "f8", "kind": "ph", "data": yd[:3]}
+    sc = [{"py": "float", "v": "0.0"}, {"py": "float", "v": "nan"}, {"py": "int", "v": "1"}]
+    for op in ("maximum", "minimum", "add", "sub", "mul", "truediv", "lt", "ge", "eq", "ne"):
+        for a, b, tag in ((1, 2, "xy"), (2, 1, "yx")):
+            yield {"id": f"nan/{op}/{tag}", "inputs": [x, y],
+                   "calls": [{"op": op, "a": a, "b": b}], "outs": {"out": 3}}
+        yield {"id": f"nan/{op}/bcast", "inputs": [x2, y1],
+               "calls": [{"op": op, "a": 1, "b": 2}], "outs": {"out": 3}}
+        for k, s_ in enumerate(sc):
+            yield {"id": f"nan/{op}/xs{k}", "inputs": [x],
+                   "calls": [{"op": op, "a": 1, "b": s_}], "outs": {"out": 2}}
+            yield {"id": f"nan/{op}/sx{k}", "inputs": [x],
+                   "calls": [{"op": op, "a": s_, "b": 1}], "outs": {"out": 2}}
+    for op in ("isnan", "abs", "neg", "exp", "sin", "sqrt"):
+        yield {"id": f"nan/{op}", "inputs": [x], "calls": [{"op": op, "a": 1}],
+               "outs": {"out": 2}}
+    yield {"id": "nan/where", "inputs": [x, y],
+           "calls": [{"op": "gt", "a": 1, "b": 2}, {"op": "where", "c": 3, "a": 1, "b": 2},
+                     {"op": "isnan", "a": 1}, {"op": "where", "c": 5, "a": 2, "b": 1}],
+           "outs": {"out": 4, "out1": 6}}
+    yield {"id": "nan/sum", "inputs": [x2],
+           "calls": [{"op": "sum", "a": 1, "axis": 1}, {"op": "sum", "a": 1, "axis": None}],
+           "outs": {"out": 2, "out1": 3}}
+
+
 def fam_lpcall(rng: np.random.Generator, count: int) -> Iterator[dict]:
     """Random programs in which calls to hand-written loopy kernels are mixed
     with the arithmetic / structural alphabet (loopy target only)."""
@@ -696,7 +731,12 @@ class _Gen:
                                   "k": int(rng.integers(-1, 2)), "dtype": "f8"})
         if op in ("zeros_like", "ones_like"):
             c = self.arrays(isfloat)
-            return bool(c) and self.try_call({"op": op, "a": pick(c)})
+            if not c:
+                return False
+            call = {"op": op, "a": pick(c)}
+            if rng.random() < 0.4:             # dtype= other than the argument's
+                call["dtype"] = pick(["i4", "f4", "i8", "b1", "f8"])
+            return self.try_call(call)
         raise ValueError(op)
 
     def finalize(self, pid: str, nouts: int) -> dict:
